@@ -30,7 +30,8 @@ DF_METHODS = {
 ALL_METH = ["MCreate", "MSelect", "MWithColumn", "MWithColumnRenamed", "MToDF", "MDrop", "MGroupBy", "MGroupAgg", "MAgg",
             "MJoin", "MFillna", "MDropna", "MDropDuplicates", "MWhere", "MOrderBy", "MLimit", "MDistinct"]
 RECORD = "_update_display_name_mapping"
-ALLOWED_GUARDS = {"'skip_update_display_name_mapping' not in kwargs", "column.alias_or_name == existing"}
+ALLOWED_GUARDS = {"'skip_update_display_name_mapping' not in kwargs", "not kwargs.get('skip_update_display_name_mapping')",
+                  "not kwargs.get('skip_update_display_name_mapping', False)", "column.alias_or_name == existing"}
 
 
 def _parents(func):
@@ -68,6 +69,10 @@ def _origin(expr, assigns, seen=()):
         if kinds == {"copy"}:
             return "copy"
         return None
+    if isinstance(expr, ast.Call) and isinstance(expr.func, ast.Attribute) and expr.func.attr == "__wrapped__" \
+            and isinstance(expr.func.value, ast.Attribute):
+        o = _origin(expr.func.value.value, assigns, seen)      # X.method.__wrapped__(X, ...): a frame derived from X
+        return o if o in ("copy", "same") else None
     if isinstance(expr, ast.Call) and isinstance(expr.func, ast.Attribute):
         base = expr.func.value
         o = _origin(base, assigns, seen)
@@ -128,7 +133,10 @@ def reselect_kind(func, label):
         if not isinstance(n, ast.Call):
             continue
         d = dotted(n.func)
-        if d == "self.select.__wrapped__":
+        if d and d.endswith(".select.__wrapped__"):
+            recv = n.func.value.value            # X in X.select.__wrapped__
+            if _origin(recv, assigns) not in ("self", "copy") or not n.args or dotted(n.args[0]) != dotted(recv):
+                raise Untranslatable(f"{label}: `{d}` is applied to an object I cannot classify")
             kws = {k.arg for k in n.keywords}
             if "skip_update_display_name_mapping" not in kws:
                 raise Untranslatable(f"{label}: select.__wrapped__ without skip_update_display_name_mapping")
@@ -312,11 +320,8 @@ def generate(repo: str):
         raise Untranslatable("agg: does not delegate to groupBy().agg")
     # join closes with the private select
     jn = py2v.find_method(df_tree, "BaseDataFrame", "join")
-    jsrc = ast.unparse(jn)
-    if "new_df.select.__wrapped__(new_df, *select_column_names, skip_update_display_name_mapping=True)" not in jsrc:
-        raise Untranslatable("join: closing select changed")
-    if "new_df = self.copy(expression=join_expression)" not in jsrc:
-        raise Untranslatable("join: result is no longer a copy of self (whose display names it keeps)")
+    if reselect_kind(jn, "join") != "SelPrivate":
+        raise Untranslatable("join: does not close with the private select on a copy of self")
 
     kinds = {}
     for m, py in DF_METHODS.items():
